@@ -12,7 +12,10 @@ admissible pair", independence of the weighting on complete data, first-appearan
 spec -> impl: every emitted record is replayed (harness/unbalanced.py) into calc_rdm_unbalanced and
 calc_one_similarity in rotating dtype (float64, float32, int64, int32) / layout (C, Fortran,
 non-contiguous slice) / label / fold-value flavours, compared at rtol 1e-10, and with calc_rdm where
-the definitions coincide.  impl -> spec: larger random integer designs validated by Trace_Unbalanced.
+the definitions coincide; calls with descriptor=None on datasets that already carry an obs descriptor named
+'index' (unique-but-permuted / repeated values) and two-step sessions on ONE dataset object (a
+cross-validated call without fold descriptor first), the caller's dataset fingerprinted around every call.
+impl -> spec: larger random integer designs validated by Trace_Unbalanced.
 
 The compiled engine cannot be rebuilt here: the check first proves that similarity.pyx is the source
 the extension was generated from (else exit 2, "compiled engine stale").
@@ -49,6 +52,9 @@ def replay(ctx, r, label, floor):
                 classes[c] = classes.get(c, 0) + n
             for c, n in res['flavours'].items():
                 flav[c] = flav.get(c, 0) + n
+            ses = ctx.extra.setdefault('records_by_session', {})
+            for c, n in res['sessions'].items():
+                ses[c] = ses.get(c, 0) + n
             for key, what, case in res['vio']:
                 ctx.violation(f'{PID}/{key}', what, {'run': label, **case})
     if tot['n_rec'] < floor:
@@ -206,6 +212,10 @@ def run(ctx):
             # three conditions of which one has no admissible pair of its own needs >= 5 observations
             ('reps5cv', dict(nobs=5, nch=2, nlab=3, dataids=(2,), nanmode='none', foldmodes=('given',),
                              methods=('euclidean', 'poisson_cv'), weightings=('number',), precids=(0,)), 4, 1500),
+            # descriptor=None / datasets that already carry an obs descriptor named 'index' (permuted, repeated) /
+            # two-step sessions on one dataset object (a cross-validated call without fold descriptor first)
+            ('nodesc', dict(nobs=4, nch=2, nlab=2, dataids=(3,), nanmode='none', weightings=('number',),
+                            nodescs=(True, False), idxkinds=('none', 'perm', 'rep'), priors=(False, True)), 4, 3000),
         ]
     else:
         runs = [
@@ -223,6 +233,10 @@ def run(ctx):
                               foldmodes=('given',)), 1, 500),
             ('reps5cv', dict(nobs=5, nch=2, nlab=3, dataids=(2, 3), nanmode='none', foldmodes=('given',),
                              methods=('euclidean', 'poisson_cv', 'crossnobis', 'correlation'), precids=(0, 1)), 8, 8000),
+            ('nodesc', dict(nobs=4, nch=2, nlab=3, dataids=(3, 1), nanmode='none',
+                            nodescs=(True, False), idxkinds=('none', 'perm', 'rep'), priors=(False, True)), 12, 10000),
+            ('nodesc_nan', dict(nobs=3, nch=2, nlab=2, dataids=(2,), nanmode='obs', foldmodes=('none',),
+                                nodescs=(True,), idxkinds=('none', 'perm', 'rep'), priors=(False, True)), 4, 3000),
         ]
     ctx.exhaustive = False
     first = None
@@ -244,6 +258,10 @@ def run(ctx):
             if not (c == 'nocv' and m in ('crossnobis', 'poisson_cv'))}
     if not need <= seen_classes:
         raise MachineryError(f'vacuous: configuration classes never replayed: {sorted(need - seen_classes)[:6]}')
+    ses = ctx.extra.get('records_by_session', {})
+    want = {f'nodesc={a}/index={b}/prior={c}' for a in (True, False) for b in ('none', 'perm', 'rep') for c in (True, False)}
+    if not want <= set(ses):
+        raise MachineryError(f'vacuous: session / descriptor classes never replayed: {sorted(want - set(ses))}')
     fl = ctx.extra['records_by_flavour']
     if len(fl) < 12:
         raise MachineryError(f'vacuous: only {len(fl)} dtype/layout flavours exercised')
